@@ -90,7 +90,7 @@ func TestWorker(t *testing.T) {
 		w.Flush()
 		rs := MixStr(Mix(seed, uint64(i)), prop+"/"+mode)
 		rc := &RunCtx{Property: prop, Mode: mode, Tier: tier, Seed: seed, Run: i, OnlyExec: -1,
-			Rec: &RunRecord{Run: i, Seed: seed}, WantSample: sampleEvery > 0 && i%sampleEvery == 0}
+			Rec: &RunRecord{Run: i, Seed: seed}, WantSample: sampleEvery > 0 && i%sampleEvery == 0, T: t}
 		rc.CaseTape = NewTape(rs)
 		if replay != nil && len(replay.CaseTape) > 0 {
 			rc.Replay = true
